@@ -47,26 +47,30 @@ theorem discussion_close_step (st : RSt) (rest : List Ctx) (hs : st.stack = .dis
   simp [endElement]
 
 theorem comment_step (st : RSt) (rest : List Ctx) (c : Cur) (hs : st.stack = .discussion :: rest) (hc : st.cur = some c)
-    (attrs : List (String × Bytes)) (x : Comment) (h : commentAttrs attrs ⟨0, 0, [], []⟩ = .ok x) :
+    (attrs : List (String × Bytes)) (x : Comment) (h : commentAttrs attrs ⟨0, 0, [], []⟩ = .ok x)
+    (hu : x.user.length ≤ 1024) :
     startElement {} st "comment" attrs =
-      .ok { st with stack := .comment :: .discussion :: rest, cur := some (addComment c x) } := by
-  rcases st with ⟨stack, header, version, headerOut, cur, out, ct⟩
+      .ok { st with stack := .comment :: .discussion :: rest, cur := some (addComment c x), commentPending := true } := by
+  have hlen : ¬ (1024 < x.user.length) := by omega
+  rcases st with ⟨stack, header, version, headerOut, cur, out, ct, cp⟩
   simp only at hs hc
   subst hs hc
-  simp (config := { decide := true }) [startElement, push, withCur, h]
+  simp (config := { decide := true }) [startElement, push, withCur, h, OplFmt.maxString, hlen]
 
-theorem comment_close_step (st : RSt) (rest : List Ctx) (hs : st.stack = .comment :: rest) :
+theorem comment_close_step (st : RSt) (rest : List Ctx) (hs : st.stack = .comment :: rest)
+    (hp : st.commentPending = false) :
     endElement {} st = .ok { st with stack := rest } := by
-  rcases st with ⟨stack, header, version, headerOut, cur, out, ct⟩
-  simp only at hs
-  subst hs
+  rcases st with ⟨stack, header, version, headerOut, cur, out, ct, cp⟩
+  simp only at hs hp
+  subst hs hp
   simp [endElement]
 
-theorem text_open_step (st : RSt) (rest : List Ctx) (hs : st.stack = .comment :: rest) (attrs : List (String × Bytes)) :
+theorem text_open_step (st : RSt) (rest : List Ctx) (hs : st.stack = .comment :: rest) (attrs : List (String × Bytes))
+    (hp : st.commentPending = true) :
     startElement {} st "text" attrs = .ok { st with stack := .text :: .comment :: rest } := by
-  rcases st with ⟨stack, header, version, headerOut, cur, out, ct⟩
-  simp only at hs
-  subst hs
+  rcases st with ⟨stack, header, version, headerOut, cur, out, ct, cp⟩
+  simp only at hs hp
+  subst hs hp
   simp (config := { decide := true }) [startElement, push]
 
 theorem text_chars_step (st : RSt) (rest : List Ctx) (hs : st.stack = .text :: rest) (t : Bytes) :
@@ -75,8 +79,9 @@ theorem text_chars_step (st : RSt) (rest : List Ctx) (hs : st.stack = .text :: r
 
 theorem text_close_step (st : RSt) (rest : List Ctx) (c : Cur) (hs : st.stack = .text :: rest) (hc : st.cur = some c) :
     endElement {} st =
-      .ok { st with stack := rest, cur := some (setCommentText c st.commentText), commentText := [] } := by
-  rcases st with ⟨stack, header, version, headerOut, cur, out, ct⟩
+      .ok { st with stack := rest, cur := some (setCommentText c st.commentText), commentText := [],
+                    commentPending := false } := by
+  rcases st with ⟨stack, header, version, headerOut, cur, out, ct, cp⟩
   simp only at hs hc
   subst hs hc
   simp [endElement]
